@@ -6,6 +6,13 @@ from .machine import (model, Machine, Cell, Agg, Ptr, SliceRef, VecV, ArrV, RStr
                     UNIT, UNINIT, copy_val, seq_cells, type_head, to_z3, wrap_int, INT_BITS)
 
 
+class SymText:
+    """the Display text of a symbolic number, kept as one opaque element of a string"""
+    __slots__ = ('sym',)
+    def __init__(self, sym): self.sym = sym
+    def __repr__(self): return '<text of %r>' % (self.sym,)
+
+
 def some(v): return Agg('Option', 'Some', 1, [v])
 def none(): return Agg('Option', 'None', 0, [])
 def ok(v): return Agg('Result', 'Ok', 0, [v])
@@ -65,6 +72,8 @@ def values_eq(m, a, b):
 
 
 def str_eq(m, a, b):
+    if any(isinstance(c, SymText) for c in a.chars) or any(isinstance(c, SymText) for c in b.chars):
+        raise Unsupported('comparison of a string holding the text of a symbolic number')
     if len(a.chars) != len(b.chars): return False
     for x, y in zip(a.chars, b.chars):
         if isinstance(x, str) and isinstance(y, str):
@@ -561,7 +570,8 @@ def render_display(m, v):
     if isinstance(v, float): return list(rust_f64(v))
     if isinstance(v, str): return [v]
     if isinstance(v, Sym):
-        raise Unsupported('display of symbolic scalar')
+        if v.ty == 'char': return [v]
+        return [SymText(v)]          # the decimal text of a symbolic number: one opaque token
     if isinstance(v, Agg) and v.ty:
         n = m.impl_index.get((v.ty, 'Display', 'fmt'))
         if n:
